@@ -16,7 +16,7 @@ var strPool = []string{
 	// text that means something to fmt, regexp, strconv or a template engine
 	"%", "%d", "50% done", "100%", "%%", "%s %v", "%!d(MISSING)", "\\u00e9", "\\x41", "\\t", "\x01", "\x7f", "\u00a0", "$1", "${x}", ".*", "\\d+", "a|b",
 	// JSON-looking text (raw form) holding characters whose UTF-8 encoding shares a byte with the raw quote ¬ (C2 AC)
-	"{\"price\": \"5 €\"}", "{\"k\": \"本ì\"}", "{\"¬\": \"Ьج\"}", "€", "本",
+	"café\n", "say \"olá\"", "C:\\José", "日本\\", "{\"a\": 1} ", "\t{\"a\": 1}", " {\"k\": [1, 2]}\n", "{\"price\": \"5 €\"}", "{\"k\": \"本ì\"}", "{\"¬\": \"Ьج\"}", "€", "本",
 }
 
 var keyPool = []string{"a", "b", "c", "k", "key", "x y", "", "A", "ʞa", "ʞb", "ʞc", "ʞk", "ʞkey", "ʞx-y", "1", "%d", "a\tb", "ʞ%s"}
